@@ -903,7 +903,7 @@ def plain_newick_soups(draw, max_tokens=30):
     """Newick-like text over structure characters, plain labels and numbers only (no quotes, no comments): mostly
     almost-balanced, so that readers get far into it."""
     toks = draw(st.lists(st.sampled_from(["(", "(", ")", ")", ",", ",", ";", ":", "a", "b", "c", "d", "e", "1", "0.5",
-                                          "(a,b)", "(c,d)", ",(e,f)", ");", "(a,b);", " ", "\n"]),
+                                          "(a,b)", "(c,d)", ",(e,f)", ");", "(a,b);", " ", "\n", "{1}", "{x}", "{"]),
                          min_size=1, max_size=max_tokens))
     return "".join(toks) + draw(st.sampled_from([";", ";", "", ");", "\n"]))
 
